@@ -269,9 +269,9 @@ Succ(f, x) == IF IsZeroF(f, x) THEN Enc(f, 0, 0, One)
               ELSE IF SignOf(f, x) = 0 THEN Fix(BAdd(x, One), NBytes(f)) ELSE (IF Body(f, x) = Fix(One, NBytes(f)) THEN EncZero(f, 1) ELSE Fix(BSub(x, One), NBytes(f)))
 Pred(f, x) == FlipSign(f, Succ(f, FlipSign(f, x)))
 NextAfter(f, x, y) == IF IsNaN(f, x) \/ IsNaN(f, y) THEN NaNRes
-                      ELSE IF FEq(f, x, y) THEN y                 \* (for +-0 against -+0 either zero is accepted: NextAfterOK)
+                      ELSE IF FEq(f, x, y) THEN y
                       ELSE IF FLt(f, x, y) THEN Succ(f, x) ELSE Pred(f, x)
-NextAfterOK(f, x, y, r) == IF ~IsNaN(f, x) /\ ~IsNaN(f, y) /\ FEq(f, x, y) THEN (r = x \/ r = y) ELSE ResOK(f, NextAfter(f, x, y), r)
+NextAfterOK(f, x, y, r) == ResOK(f, NextAfter(f, x, y), r)          \* nextafter(x, y) = y when x = y, in particular nextafter(+0, -0) = -0 (ISO C 7.12.11.3)
 \* x = m * 2^k with 0.5 <= |m| < 1: <<m datum, k>> for finite non-zero x
 FrexpMant(f, x) == Round(f, SignOf(f, x), Sig(f, x), -BitLen(Sig(f, x)), FALSE)
 FrexpExp(f, x) == Exp(f, x) + BitLen(Sig(f, x))
